@@ -58,10 +58,10 @@ def c12(ctx):
                        "all strings of length <= 3 over dgimsuyvzG, permutations of dgimsuy, random multisets and unknown letters")
     ctx.correspondence("Grammar.v recogniser vs V8 on the fragment", 2 * cnt.get("grammar_strings", 0), cnt.get("grammar_accepted", 0),
                        r.get("grammar_mismatches", [])[:10],
-                       "every string of length <= %d over the fragment alphabet %s, with and without u: the extracted recogniser "
+                       "every in_fragment string of length <= %d over the alphabet %s, with and without u: the extracted recogniser "
                        "(FragParser.recognises, proved equivalent to the inductive predicate Pattern u of Regex/Grammar.v on the fragment: "
                        "C12_recogniser_decides_grammar) accepts iff `new RegExp` does not throw; non-trivial := accepted string"
-                       % (7 if ctx.tier == "thorough" else 6, "".join(R.FRAGMENT_ALPHABET)))
+                       % (6 if ctx.tier == "thorough" else 5, "".join(R.FRAGMENT_ALPHABET)))
     ctx.obligation("extracted model started from a deliberately dirty validator state decides like a fresh one (%d cases)" % cnt["dirty_cases"],
                    not r["dirty"], json.dumps(r["dirty"][:3], ensure_ascii=False))
     ctx.extra["regex_counts"] = cnt
